@@ -284,7 +284,17 @@ def check_precond(fx, R, cq, cname):
     ident = [s for s in st if s[0] == 'expr' and isinstance(s[1], tuple) and s[1][0] == '=' and s[1][1] == 'Ac']
     ok = decl_scale in st and blk in st and setp in st and len(ident) == 1 and 'Identity' in str(ident[0][1][2]) and ('%d, %d' % (n, n)) in str(ident[0][1][2]) \
         and st.index(ident[0]) < st.index(blk) < st.index(setp)
-    if ok:
+    # must-pass-through: every path reaches leastSquares_.setPreconditionner(Ac) - the solver object persists, so a path that
+    # returns earlier keeps the un-scaling matrix of the previous configuration
+    pf = prune_fn(f)
+    top = pf['body']['s'] if pf['body'] and pf['body'].get('k') == 'Compound' else []
+    idx_set = next((i for i, x in enumerate(top) if x.get('k') == 'Expr' and deep_unwrap(sx(x['e'])) == setp[1]), None)
+    early = [x for x in (top[:idx_set] if idx_set is not None else top) if x.get('k') in ('If', 'Return') and any(y.get('k') == 'Return' for y in walk(x))]
+    if early and idx_set is not None:
+        cond_txt = pp(early[0]['c']) if early[0].get('k') == 'If' else 'unconditionally'
+        R.violated('P4', 'FindRigidTransformationByLeastSquares::setPreconditioner:early-return', 'setPreconditioner() returns (%s) before leastSquares_.setPreconditionner(Ac): the solver is a member and keeps the '
+                   'un-scaling matrix installed for the PREVIOUS pair of sets, so after a configuration with another scale the translation is un-scaled with the old factor [%s]' % (cond_txt, cname), fx.rel(f['loc']), 'E-STATE')
+    elif ok:
         R.holds('P4', 'FindRigidTransformationByLeastSquares::setPreconditioner [%s]' % cname, 'Ac = I_%d with the first %d diagonal entries divided by the target scale' % (n, D), fx.rel(f['loc']), 'E-SIB')
     else:
         R.undecided('P4', 'FindRigidTransformationByLeastSquares::setPreconditioner [%s]' % cname, 'idiom not recognised: %s' % (st,))
@@ -298,10 +308,10 @@ def check_precond(fx, R, cq, cname):
         else:
             want = [('return', ('.estimate_', 'this', 'sourcePoints', 'targetPoints', 'targetPointsNormals') + (('correspondences',) if withc else ()))]
         inst = 'FindRigidTransformationByLeastSquares::find/%s%s [%s]' % ('preconditioned' if pre else 'raw', '+corr' if withc else '', cname)
-        if s_ == want:
-            R.holds('P4', inst, 'delegates unchanged', fx.rel(g['loc']), 'E-SIB')
-        else:
-            R.undecided('P4', inst, 'delegation idiom not recognised: %s' % (s_,))
+        rescale = [x for x in s_ if x[0] == 'expr' and isinstance(x[1], tuple) and x[1][0] in ('/=', '*=') and 'getPreconditioningMatrix' in str(x[1][2]) and '.block' in str(x[1][1])]
+        R.form(s_ == want, 'P4', inst, 'delegation idiom not recognised: %s' % (s_,), 'delegates unchanged', fx.rel(g['loc']), 'E-SIB',
+               facts=[(pre and bool(rescale) and ok, 'this overload rescales the translation block itself (%s), but this estimator already un-scales the translation parameters through the solver matrix Ac installed by '
+                       'setPreconditioner(): the translation is compensated twice (t/s instead of t), unlike the index-based overload' % (rescale[0][1] if rescale else '',))])
 
 
 def prune_fn(f):
